@@ -74,6 +74,10 @@ func (w *World) verifyFunc(sel string, con *Contract) *FuncResult {
 	for _, p := range con.Panics {
 		st.panicOK[p] = true
 	}
+	for _, p := range con.Recovers {
+		st.panicOK[p] = true
+		ex.d.trust("recover() in " + sel + " is assumed to turn a panic of type " + p + " into a returned error (the model does not execute recover)")
+	}
 	ex.entryBinds = map[string]TT{}
 	var args []Value
 	for _, p := range fn.Params {
